@@ -15,6 +15,7 @@ THEOREMS = {"glob_iff": "full: match_glob = wildcard semantics for every pattern
                                 "extraction directory is the archived one and nothing outside changes; hypotheses evaluated on every generated "
                                 "in-domain archive by lhvt (op xtree) and the promised tree compared with the real tool's",
             "dir_meta_final": "full under the same hypotheses: recorded directory mode and time survive the later writes into it",
+            "option_letters_spec": "full: meaning of every accepted option string (f/q overwrite, i, n, v, w=dir)", "command_letter_spec": "full",
             "access_regimes": "full", "sample_tree_extracts": "non-vacuity on real archive bytes (kernel evaluation of parser+reader)",
             "dir_entry_for_existing_dir_ignored": "fact outside the domain (contents before their directory entry)",
             "(options i, w=, wildcards, pre-existing files, dangerous links: resulting tree)": "correspondence: real tree = independent oracle = Fs/Extract model"}
@@ -399,7 +400,7 @@ def prepare(ctx, env):
     if lha is None:
         return "lha tool: " + err
     env["lha"] = lha
-    vh, err = core.build_vh(ctx, ["tool"])
+    vh, err = core.build_vh(ctx, ["tool", "cli"])
     if vh is None:
         return "harness (src/filter.c): " + err
     env["vh"] = vh
@@ -445,6 +446,86 @@ def glob_cases(r, n):
             p = bytes(r.choice(GLOB_ALPH) for _ in range(r.randrange(0, 9)))
         out.append((p, s_))
     return out
+
+
+def cli_cases(r, n):
+    """command arguments: every letter pair exhaustively over a small alphabet + random longer ones"""
+    import itertools
+    alph = b"xelvtpfinqw=-019a"
+    out = [bytes(t) for k in range(0, 3) for t in itertools.product(alph, repeat=k)]
+    for _ in range(n):
+        k = r.random()
+        if k < 0.6:      # mostly valid
+            c = r.choice([b"", b"-"]) + bytes([r.choice(b"xelvtp")])
+            for _ in range(r.randrange(0, 6)):
+                c += r.choice([b"f", b"i", b"n", b"v", b"q", b"q0", b"q1", b"q2", b"q9", b"qf", b"qq"])
+            if r.random() < 0.3:
+                c += b"w" + r.choice([b"", b"=", b"==", b"=d", b"d", b"=out/dir", b"fq", b"=w=f"])
+            out.append(c)
+        else:
+            out.append(bytes(r.choice(alph) for _ in range(r.randrange(1, 8))))
+    return out
+
+
+def cli_oracle(cmd):
+    """what the usage text promises: [-]{lvtxep}[q{num}][finv][w=<dir>]"""
+    if cmd[:1] == b"-":
+        cmd = cmd[1:]
+    if not cmd or cmd[:1] not in b"lvtxep":
+        return "fail"
+    mode = {b"l": "l", b"v": "v", b"t": "t", b"x": "x", b"e": "x", b"p": "p"}[cmd[:1]]
+    ow = quiet = verbose = dry = 0
+    usepath = 1
+    path = "none"
+    i = 1
+    while i < len(cmd):
+        c = cmd[i:i + 1]
+        if c == b"f":
+            ow = 1
+        elif c == b"i":
+            usepath = 0
+        elif c == b"n":
+            dry = 1
+        elif c == b"v":
+            verbose = 1
+        elif c == b"q":
+            ow = 1
+            if cmd[i + 1:i + 2].isdigit():
+                quiet = int(cmd[i + 1:i + 2]); i += 1
+            else:
+                quiet = 2
+        elif c == b"w":
+            d = cmd[i + 1:]
+            if d[:1] == b"=":
+                d = d[1:]
+            path = hx(d)
+            break
+        else:
+            return "fail"
+        i += 1
+    return "ok mode=%s ow=%d quiet=%d verbose=%d dry=%d usepath=%d path=%s" % (mode, ow, quiet, verbose, dry, usepath, path)
+
+
+def run_cli(ctx, env, cmds):
+    """three-way: parse_command_line (C, src/main.c) = Cli.parseCommandLine (model) = the usage grammar (oracle)"""
+    ops = ["cli " + hx(c) for c in cmds if c]
+    cmds = [c for c in cmds if c]
+    c_out, _ = core.run_lines_parallel([env["vh"], "20"], ops)
+    m_out, _ = core.run_lines_parallel([env["lhv"]], ops) if env.get("lhv") else (None, None)
+    conc, corr = [], []
+    for i, c in enumerate(cmds):
+        want = cli_oracle(c)
+        rec = {"op": ops[i], "c_out": c_out[i], "tags": ["cli"], "desc": "command argument %r" % c, "opts": [], "filters": []}
+        if m_out is not None:
+            rec["model_out"] = m_out[i]
+        if c_out[i] != want:
+            rec["why"] = "command argument %r: the tool parses it as [%s], the documented option grammar gives [%s]" % (c, c_out[i], want)
+            rec["sig"] = "cli-options"
+            conc.append(rec)
+        elif m_out is not None and m_out[i] != c_out[i]:
+            rec["why"] = "model and implementation disagree"
+            corr.append(rec)
+    return conc, corr
 
 
 def run_globs(ctx, env, pairs):
@@ -554,6 +635,12 @@ def evaluate(ctx, env, cases, with_model):
         corr += gr
         ctx.dist["glob-pairs"] += len(gpairs)
         ctx.dist["glob-matching"] += sum(1 for p, s_ in gpairs if glob_match(p, s_))
+        ccmds = cli_cases(ctx.rng, 600 if ctx.tier == "quick" else 20000)
+        cc, cr = run_cli(ctx, env, ccmds)
+        conc += cc
+        corr += cr
+        ctx.dist["cli-arguments"] += len(ccmds)
+        ctx.dist["cli-accepted"] += sum(1 for c in ccmds if c and cli_oracle(c) != "fail")
     for i, (c, r) in enumerate(zip(cases, rs)):
         rec = {"op": r["model_op"][:6000], "c_out": r["c_out"][:3000], "tags": sorted(c.tags), "stderr": r["stderr"],
                "desc": repr(_cases[c.op]["ents"])[:1500], "opts": _cases[c.op]["opts"], "filters": [f.decode("latin1") for f in _cases[c.op]["filters"]]}
